@@ -331,6 +331,8 @@ class Failure:
 def compare(prop, ops_text, impl_out, model_out):
     """Aligns impl and model output per case. Returns (failures, stats)."""
     cases = split_cases(ops_text)
+    # a property may adopt the observables / oracles an engine tags with another property id (same mechanism)
+    aliases = set(PROPS.get(prop, {}).get("also_tags", []))
 
     def per_case(txt):
         d = {}
@@ -362,9 +364,9 @@ def compare(prop, ops_text, impl_out, model_out):
                 kind, tags, payload = m.group(1), m.group(2).split(","), m.group(3)
             else:
                 kind, tags, payload = "P", ["*"], a_clean   # untagged (X panic, E …): concerns everyone
-            mine = prop in tags or "*" in tags
+            mine = prop in tags or "*" in tags or bool(aliases & set(tags))
             for bp, clause in bads:
-                if bp == prop:
+                if bp == prop or bp in aliases:
                     fails.append(Failure("bad", cid, i, "impl: %s" % a, clause))
             if not mine:
                 stats["other_prop"] += 1
